@@ -17,7 +17,8 @@ RULE = ("K: (a) parity / mirror-map / Poynting-parity tables: every (field kind,
         "reduce_volume alternating; the stored slot order is read off the detector's own update() on constant probe fields), reduce_volume, exact_interpolation, as_slices, keep_all_components, propagation axis, "
         "boxes straddling / touching / inside the kept half per axis; every multi-axis scene also carries one detector of each "
         "kind that crosses only a proper SUBSET of the planes (none, one of two, two of three; the EnergyDetector always "
-        "reduce_volume, the others alternating), random recorded states. All outputs compared "
+        "reduce_volume, the others alternating), random recorded states; plus two fixed scenes (all-electric, all-magnetic) with a summed PoyntingFluxDetector "
+        "for every normal axis x every single straddled plane, scalar and all-component. All outputs compared "
         "exactly (values are copies and sign flips / factors 0,1,2,4,8). Independent numpy oracle on every array case: "
         "upper half == input (values and dtype), doubled extent, mirror index map + documented parity; for reduce_volume "
         "detectors: unfolded value == reduction of the unfolded spatial twin when nothing sits on a plane. "
@@ -481,6 +482,38 @@ def subset_dets(rng, sym, vshape, variant):
     return out
 
 
+def poynting_scene(rng, sym):
+    """summed PoyntingFluxDetectors for EVERY (normal axis p) x (single straddled symmetry axis a): scalar
+    (keep_all_components False, fixed_propagation_axis p) and, per straddled axis, one all-component detector; on the
+    other symmetric axes the box starts on the plane or lies inside the kept half"""
+    vshape = [rng.choice([4, 6]) if sym[a] != 0 else rng.randint(2, 4) for a in range(3)]
+    dets = []
+    for a in [x for x in range(3) if sym[x] != 0]:
+        for p in (0, 1, 2, 3):
+            lo, hi = [], []
+            for b in range(3):
+                n, m = vshape[b], vshape[b] // 2
+                if sym[b] == 0:
+                    l = rng.randint(0, n - 1)
+                    lo.append(l)
+                    hi.append(rng.randint(l + 1, n))
+                elif b == a:
+                    lo.append(rng.randint(0, m - 1))
+                    hi.append(rng.randint(m + 1, n))
+                elif rng.chance(0.5):
+                    lo.append(m)
+                    hi.append(rng.randint(m + 1, n))
+                else:
+                    l = rng.randint(m + 1, n - 1)
+                    lo.append(l)
+                    hi.append(rng.randint(l + 1, n))
+            dets.append({"name": f"pf{a}{p}", "kind": "poynting", "lo": lo, "hi": hi, "exact": rng.chance(0.5),
+                         "keep_all": p == 3, "reduce": True, "prop": p % 3 if p < 3 else rng.randint(0, 2),
+                         "direction": rng.choice(["+", "-"])})
+    return {"op": "scene", "sym": list(sym), "vshape": vshape, "dets": dets,
+            "seed": rng.randint(0, 2 ** 31 - 1), "eager": rng.chance(0.25)}
+
+
 def parity_rows(comps, sym):
     return [[o_parity("E" if i < 3 else "H", i % 3, a, sym[a]) for i in comps] for a in range(3) if sym[a] != 0]
 
@@ -831,14 +864,20 @@ def run(ctx):
             ctx.violation(case, d)
     flush(ctx)
     # detector scenes: every symmetry tuple in the thorough tier, a seed-dependent subset in the quick tier
-    syms = list(ALL_SYMS) if ctx.thorough else ctx.rng.shuffle(ALL_SYMS)[:6]
+    syms = list(ALL_SYMS) if ctx.thorough else ctx.rng.shuffle(ALL_SYMS)[:5]
     if not ctx.thorough:  # always keep a triple-plane, a pure-electric, a pure-magnetic and a mixed scene
-        syms = syms[:2] + [ctx.rng.choice([(-1, -1, -1), (-1, 1, -1), (1, -1, 1)]), ctx.rng.choice([(-1, 0, 0), (0, -1, 0)]),
+        syms = syms[:1] + [ctx.rng.choice([(-1, -1, -1), (-1, 1, -1), (1, -1, 1)]), ctx.rng.choice([(-1, 0, 0), (0, -1, 0)]),
                            ctx.rng.choice([(1, 0, 0), (0, 0, 1), (1, 1, 0)]), ctx.rng.choice([(0, 1, -1), (-1, 0, 1)])]
     for k, sym in enumerate(syms):
         # every scene also carries a Field and a Phasor detector with a NON-canonical components tuple (variant k)
         nsym = sum(1 for x in sym if x)
         case = scene_case(ctx.rng, sym, ctx.scale(3 if nsym >= 2 else 5, 12), variant=k)
+        d = eval_scene(ctx, case)
+        if d:
+            ctx.violation(case, d)
+    # summed Poynting flux: every normal axis x every single straddled plane x both wall kinds (fixed set)
+    for sym in ([(-1, -1, -1), (1, 1, 1)] + ([(-1, 1, -1), (1, -1, 1), (0, 1, -1)] if ctx.thorough else [])):
+        case = poynting_scene(ctx.rng, sym)
         d = eval_scene(ctx, case)
         if d:
             ctx.violation(case, d)
@@ -879,6 +918,12 @@ def search(ctx, hints):
     for _ in range(400):
         case = array_case(rng)
         d = eval_array(ctx, case, compare=False)
+        if d:
+            ctx.violation(case, d)
+            return
+    for sym in [(-1, -1, -1), (1, 1, 1), (-1, 1, -1), (1, -1, 1)]:
+        case = poynting_scene(rng, sym)
+        d = eval_scene(ctx, case, compare=False)
         if d:
             ctx.violation(case, d)
             return
